@@ -190,7 +190,7 @@ Qed.
 
 (** ** Strict hypotheses and the global invariant *)
 
-Definition strict (h : hyps) : Prop := h_owt h = true /\ h_agree h = true.
+Definition strict (h : hyps) : Prop := h_agree h = true.
 
 Definition touches (st : state) (p : path) (it : item) : bool :=
   match it, item_pat st it with
@@ -292,17 +292,17 @@ Proof.
   unfold set_feed. intros H. apply In_upd_nth in H as [H|(x & _ & H)]; auto.
 Qed.
 
-Lemma feed_of_set_feed_eq st w f lv dl tr ss :
+Lemma feed_of_set_feed_eq st w f lv dl tr ss lk :
   (w < List.length (st_feeds st))%nat ->
-  feed_of (mkState lv dl tr (set_feed st w f) ss) w = f.
+  feed_of (mkState lv dl tr (set_feed st w f) ss lk) w = f.
 Proof.
   intros H. unfold feed_of, set_feed. cbn.
   apply nth_error_nth. rewrite nth_error_upd_nth_eq.
   destruct (nth_error (st_feeds st) w) eqn:E; [reflexivity|]. apply nth_error_None in E. lia.
 Qed.
 
-Lemma feed_of_set_feed_neq st w w' f lv dl tr ss :
-  w <> w' -> feed_of (mkState lv dl tr (set_feed st w f) ss) w' = feed_of st w'.
+Lemma feed_of_set_feed_neq st w w' f lv dl tr ss lk :
+  w <> w' -> feed_of (mkState lv dl tr (set_feed st w f) ss lk) w' = feed_of st w'.
 Proof.
   intros H. unfold feed_of, set_feed. cbn.
   destruct (nth_error (st_feeds st) w') eqn:E.
@@ -325,23 +325,6 @@ Proof.
   - apply nth_error_Some. congruence.
 Qed.
 
-Lemma in_flight_other_false st w t :
-  in_flight_other st w t = false ->
-  forall w' it, w' <> w -> In it (feed_of st w') -> item_target st it <> Some t.
-Proof.
-  unfold in_flight_other. intros H w' it Hw Hin Ht.
-  assert (Hlt : (w' < List.length (st_feeds st))%nat).
-  { unfold feed_of in Hin. destruct (Nat.lt_ge_cases w' (List.length (st_feeds st))); auto.
-    rewrite nth_overflow in Hin by assumption. contradiction. }
-  assert (E : existsb (fun w' => negb (Nat.eqb w' w) &&
-                     existsb (fun it => match item_target st it with
-                                        | Some t' => String.eqb t t' | None => false end)
-                             (feed_of st w')) (seq 0 (List.length (st_feeds st))) = true).
-  { apply existsb_exists. exists w'. split; [apply in_seq; lia|].
-    apply andb_true_iff. split; [apply negb_true_iff, Nat.eqb_neq; exact Hw|].
-    apply existsb_exists. exists it. split; auto. rewrite Ht. apply String.eqb_refl. }
-  congruence.
-Qed.
 
 
 (** *** replacing one writer's pending list *)
@@ -400,8 +383,8 @@ Proof.
 Qed.
 
 (** the target bookkeeping of a write by writer [w] on target [t] *)
-Lemma feed_tgt_set st lv dl tr ss w f t :
-  let st' := mkState lv dl tr (set_feed st w f) ss in
+Lemma feed_tgt_set st lv dl tr ss lk w f t :
+  let st' := mkState lv dl tr (set_feed st w f) ss lk in
   ext st st' ->
   (forall f0 it, In f0 (st_feeds st) -> In it f0 -> exists d, item_pat st it = Some d) ->
   (forall it, In it f -> item_target st' it = Some t) ->
@@ -464,10 +447,10 @@ Lemma GInv_upd_existing st w p l c f :
   (f = [] \/ f = [ILeaf l]) ->
   (forall w' it, w' <> w -> In it (feed_of st w') -> item_target st it <> Some (target_of p)) ->
   GInv (mkState (upd_nth l (fun pc => (fst pc, c)) (st_leaves st)) (st_dels st) (st_tree st)
-                (set_feed st w f) (st_subs st)).
+                (set_feed st w f) (st_subs st) (st_locks st)).
 Proof.
   intros G Hnth Hl Hf Hother.
-  set (st' := mkState _ _ _ _ _).
+  set (st' := mkState _ _ _ _ _ _).
   assert (LP : forall l', leaf_path st' l' = leaf_path st l').
   { intros l'. unfold leaf_path, st'. cbn. apply leaf_path_upd. }
   assert (IP : forall it, item_pat st' it = item_pat st it).
@@ -490,7 +473,7 @@ Proof.
   - intros f0 k d H1 H2. try rewrite IP. apply In_set_feed in H1 as [H1| ->].
     + eapply (g_feed_del _ G); eauto.
     + destruct Hf as [->| ->]; [contradiction|]. destruct H2 as [?|[]]. discriminate.
-  - apply (feed_tgt_set st _ _ _ _ w f (target_of p)); auto.
+  - apply (feed_tgt_set st _ _ _ _ _ w f (target_of p)); auto.
     + apply wf_exists; auto.
     + intros it Hit. destruct Hf as [->| ->]; [contradiction|]. destruct Hit as [<-|[]].
       unfold item_target. rewrite IP. cbn. rewrite Hpl. reflexivity.
@@ -509,11 +492,11 @@ Lemma GInv_new_leaf st w p c :
   target_ok p = true -> star_free p = true -> agree_on st p = true ->
   (forall w' it, w' <> w -> In it (feed_of st w') -> item_target st it <> Some (target_of p)) ->
   GInv (mkState (st_leaves st ++ [(p, c)]) (st_dels st) (st_tree st ++ [(p, List.length (st_leaves st))])
-                (set_feed st w [ILeaf (List.length (st_leaves st))]) (st_subs st)).
+                (set_feed st w [ILeaf (List.length (st_leaves st))]) (st_subs st) (st_locks st)).
 Proof.
   intros G Hnth Hl Hc Ht Hs Ha Hother.
   assert (Hempty := nth_error_feed_of _ _ _ Hnth).
-  set (l := List.length (st_leaves st)). set (st' := mkState _ _ _ _ _).
+  set (l := List.length (st_leaves st)). set (st' := mkState _ _ _ _ _ _).
   assert (LPn : leaf_path st' l = Some p).
   { unfold leaf_path, st', l. cbn. rewrite nth_error_app2 by lia. rewrite Nat.sub_diag. reflexivity. }
   assert (E : ext st st').
@@ -555,7 +538,7 @@ Proof.
     eapply (Hother w' (IDel k)); auto.
     + rewrite Hw'. exact H2.
     + unfold item_target. cbn. cbn in Hd. rewrite Hd. cbn. f_equal. apply covers_target; auto.
-  - apply (feed_tgt_set st _ _ _ _ w _ (target_of p)); auto.
+  - apply (feed_tgt_set st _ _ _ _ _ w _ (target_of p)); auto.
     + apply wf_exists; auto.
     + intros it [<-|[]]. unfold item_target. cbn. fold l. change (leaf_path st' l) with (leaf_path st' l).
       unfold st' in LPn. rewrite LPn. reflexivity.
@@ -596,11 +579,11 @@ Lemma GInv_delete st w vs nd t :
       forall p l, In (p, l) (remove_paths vs (st_tree st)) -> covers d p = false) ->
   (forall w' it, w' <> w -> In it (feed_of st w') -> item_target st it <> Some t) ->
   GInv (mkState (st_leaves st) (st_dels st ++ nd) (remove_paths vs (st_tree st))
-                (set_feed st w (map IDel (seq (List.length (st_dels st)) (List.length nd)))) (st_subs st)).
+                (set_feed st w (map IDel (seq (List.length (st_dels st)) (List.length nd)))) (st_subs st) (st_locks st)).
 Proof.
   intros G Hnth Hvs Hnd Hother.
   assert (Hempty := nth_error_feed_of _ _ _ Hnth).
-  set (st' := mkState _ _ _ _ _).
+  set (st' := mkState _ _ _ _ _ _).
   assert (E : ext st st').
   { intros [l'|k|] d; cbn; auto. apply option_map_nth_app. }
   assert (NEW : forall k, In (IDel k) (map IDel (seq (List.length (st_dels st)) (List.length nd))) ->
@@ -640,7 +623,7 @@ Proof.
       eapply (g_feed_del _ G); eauto.
     + destruct (NEW _ H2) as (d' & ts & Hin & Hp). cbn in Hd, Hp. rewrite Hd in Hp. inversion Hp; subst d'.
       eapply (Hnd _ _ Hin); eauto.
-  - apply (feed_tgt_set st _ _ _ _ w _ t); auto.
+  - apply (feed_tgt_set st _ _ _ _ _ w _ t); auto.
     + apply wf_exists; auto.
     + intros it Hit. destruct it as [l|k|]; try (apply in_map_iff in Hit as (? & ? & _); discriminate).
       destruct (NEW _ Hit) as (d & ts & Hin & Hp). unfold item_target. fold st'. rewrite Hp. cbn. f_equal.
@@ -669,11 +652,10 @@ Qed.
 
 Lemma write_GInv h st w o st' r :
   strict h -> GInv st -> nth_error (st_feeds st) w = Some [] ->
-  in_flight_other st w (wop_target o) = false ->
+  (forall w' it, w' <> w -> In it (feed_of st w') -> item_target st it <> Some (wop_target o)) ->
   write h st w o = Some (st', r) -> GInv st'.
 Proof.
-  intros [Howt Hag] G Hempty Hifo Hw.
-  assert (Hother := in_flight_other_false _ _ _ Hifo).
+  intros Hag G Hempty Hother Hw. unfold strict in Hag.
   destruct o as [p v ts|d ts order|d]; cbn in Hw, Hother.
   - destruct (target_ok p && star_free p) eqn:Hok; cbn in Hw; [|discriminate].
     apply andb_true_iff in Hok as [Hok1 Hok2].
@@ -961,7 +943,7 @@ Lemma SInv_frame h st st' sb :
   st_leaves st' = st_leaves st -> st_dels st' = st_dels st -> st_tree st' = st_tree st ->
   st_feeds st' = st_feeds st -> SInv h st sb -> SInv h st' sb.
 Proof.
-  destruct st as [a b c d e], st' as [a' b' c' d' e']. cbn. intros -> -> -> -> H.
+  destruct st as [a b c d e f0], st' as [a' b' c' d' e' f0']. cbn. intros -> -> -> -> H.
   destruct H as [H1 H2 H3 H4 H5 H6 H7]. constructor; assumption.
 Qed.
 
@@ -1277,7 +1259,7 @@ Lemma filter_remove_one {A} (g : A -> bool) (a rest b : list A) x :
 Proof. intros H. rewrite !filter_app. cbn. rewrite H. reflexivity. Qed.
 
 Lemma SInv_feed h st w it rest ss' sb :
-  let st' := mkState (st_leaves st) (st_dels st) (st_tree st) (set_feed st w rest) ss' in
+  let st' := mkState (st_leaves st) (st_dels st) (st_tree st) (set_feed st w rest) ss' (st_locks st) in
   GInv st -> nth_error (st_feeds st) w = Some (it :: rest) ->
   SInv h st sb -> s_end sb = false -> SInv h st' (deliver st it sb).
 Proof.
@@ -1456,7 +1438,7 @@ End WriteStep.
 
 Lemma SInv_upd_existing h st w p0 l0 c f sb :
   let st' := mkState (upd_nth l0 (fun pc => (fst pc, c)) (st_leaves st)) (st_dels st) (st_tree st)
-                     (set_feed st w f) (st_subs st) in
+                     (set_feed st w f) (st_subs st) (st_locks st) in
   GInv st -> GInv st' -> nth_error (st_feeds st) w = Some [] -> tlookup p0 (st_tree st) = Some l0 ->
   (f = [ILeaf l0] \/ (f = [] /\ forall c0, leaf_cont st l0 = Some c0 -> proj h c = proj h c0)) ->
   SInv h st sb -> SInv h st' sb.
@@ -1508,7 +1490,7 @@ Qed.
 Lemma SInv_new_leaf h st w p0 c sb :
   let l0 := List.length (st_leaves st) in
   let st' := mkState (st_leaves st ++ [(p0, c)]) (st_dels st) (st_tree st ++ [(p0, l0)])
-                     (set_feed st w [ILeaf l0]) (st_subs st) in
+                     (set_feed st w [ILeaf l0]) (st_subs st) (st_locks st) in
   GInv st -> GInv st' -> nth_error (st_feeds st) w = Some [] -> tlookup p0 (st_tree st) = None ->
   SInv h st sb -> SInv h st' sb.
 Proof.
@@ -1554,7 +1536,7 @@ Qed.
 
 Lemma SInv_delete h st w vs nd sb :
   let f := map IDel (seq (List.length (st_dels st)) (List.length nd)) in
-  let st' := mkState (st_leaves st) (st_dels st ++ nd) (remove_paths vs (st_tree st)) (set_feed st w f) (st_subs st) in
+  let st' := mkState (st_leaves st) (st_dels st ++ nd) (remove_paths vs (st_tree st)) (set_feed st w f) (st_subs st) (st_locks st) in
   GInv st -> GInv st' -> nth_error (st_feeds st) w = Some [] ->
   (forall x, In x vs -> exists it, In it f /\ touches st' (fst x) it = true) ->
   SInv h st sb -> SInv h st' sb.
@@ -1690,9 +1672,9 @@ Proof. unfold deliver. destruct (item_pat st it); [|reflexivity]. destruct (s_en
 
 Lemma GInv_feed st w it rest :
   GInv st -> nth_error (st_feeds st) w = Some (it :: rest) ->
-  GInv (mkState (st_leaves st) (st_dels st) (st_tree st) (set_feed st w rest) (map (deliver st it) (st_subs st))).
+  GInv (mkState (st_leaves st) (st_dels st) (st_tree st) (set_feed st w rest) (map (deliver st it) (st_subs st)) (st_locks st)).
 Proof.
-  intros G Hw. set (st' := mkState _ _ _ _ _).
+  intros G Hw. set (st' := mkState _ _ _ _ _ _).
   assert (Hold : In (it :: rest) (st_feeds st)) by (eapply nth_error_In; eauto).
   assert (Hsub : forall f0 x, In f0 (st_feeds st') -> In x f0 -> exists f1, In f1 (st_feeds st) /\ In x f1).
   { intros f0 x H1 H2. apply In_set_feed in H1 as [H1| ->]; eauto. exists (it :: rest). split; auto. right. exact H2. }
@@ -1947,14 +1929,14 @@ Proof.
     assert (Hlp := tlookup_leaf _ _ _ G Hl). unfold leaf_path in Hlp.
     destruct (nth_error (st_leaves st) l0) as [[p' c0]|] eqn:X; [|discriminate]. cbn in Hlp. inversion Hlp; subst p'.
     assert (L1 : leaf_path (mkState (upd_nth l0 (fun pc => (fst pc, (v, ts))) (st_leaves st)) (st_dels st) (st_tree st)
-                              (set_feed st w [ILeaf l0]) (st_subs st)) l0 = Some p).
+                              (set_feed st w [ILeaf l0]) (st_subs st) (st_locks st)) l0 = Some p).
     { unfold leaf_path. cbn. rewrite nth_error_upd_nth_eq, X. reflexivity. }
     split; [exact L1|]. split; [unfold leaf_cont; cbn; rewrite nth_error_upd_nth_eq, X; reflexivity|].
     split; [exact Hl|]. intros sb _ Hrm. apply PF; auto.
   - destruct (conflicts st p); [cbn; intros [= <-] l Hin; rewrite (nth_error_feed_of _ _ _ Hw) in Hin; contradiction|].
     cbn. intros [= <-] l Hin. assert (Hin' := Hin). rewrite feed_of_set_feed_eq in Hin by assumption. destruct Hin as [[= <-]|[]].
     assert (L1 : leaf_path (mkState (st_leaves st ++ [(p, (v, ts))]) (st_dels st) (st_tree st ++ [(p, List.length (st_leaves st))])
-                              (set_feed st w [ILeaf (List.length (st_leaves st))]) (st_subs st)) (List.length (st_leaves st)) = Some p).
+                              (set_feed st w [ILeaf (List.length (st_leaves st))]) (st_subs st) (st_locks st)) (List.length (st_leaves st)) = Some p).
     { unfold leaf_path. cbn. rewrite nth_error_app2 by lia. rewrite Nat.sub_diag. reflexivity. }
     split; [exact L1|]. split; [unfold leaf_cont; cbn; rewrite nth_error_app2 by lia; rewrite Nat.sub_diag; reflexivity|].
     split; [cbn; rewrite tlookup_app, Hl; cbn; rewrite path_eqb_refl; reflexivity|].
@@ -2170,7 +2152,7 @@ Proof.
     rewrite deliver_end in He. specialize (Y _ _ Hsb He).
     assert (Hf : In (it :: rest) (st_feeds st)) by (eapply nth_error_In; eauto).
     destruct (g_feed_wf _ G _ _ Hf (or_introl eq_refl)) as (Hns & pat & Hpat & _).
-    set (st' := mkState _ _ _ _ _).
+    set (st' := mkState _ _ _ _ _ _).
     assert (TR : forall x, trace st' x = trace st x) by reflexivity.
     unfold deliver. rewrite Hpat. rewrite He at 1. rewrite q_insert_n_mult.
     destruct (existsb _ (regq sb)).
